@@ -141,8 +141,8 @@ def handle (iasOfMach : Rat → Int → Rat) (ws : List String) : String :=
     | "uplink.lockout" => fmtOpt fmtBool (uplinkLockout b)
     | "uplink_fields" =>
       let f := uplinkFields b
-      joinBar [fmtOpt fmtNat f.di, fmtStr f.ic, fmtBool f.los, fmtOpt fmtNat f.pr, fmtOpt fmtNat f.rr,
-               fmtOpt fmtNat f.rrs, fmtStr f.bds]
+      let e := fun (o : Option Nat) => match o with | some n => fmtNat n | none => "''"
+      joinBar [e f.di, fmtStr f.ic, fmtBool f.los, e f.pr, e f.rr, e f.rrs, fmtStr f.bds]
     | _ => "BAD-OP"
   | ["nic_v1", m, s] => fmtRes fmt3 (nicV1 (hex2bin m) s.toNat!)
   | ["nic_v2", m, a, bc] =>
